@@ -9,8 +9,13 @@ for id in $IDS; do
   pid=${id%%-*}
   W=/tmp/seedreg_$id
   git -C /repo worktree add --detach $W >/dev/null 2>&1
+  if grep -q '"obsolete_since"' /verif/seeded/$id/meta.json; then
+    echo "$id: neutralised by a later fix ($(python3 -c "import json;print(json.load(open('/verif/seeded/$id/meta.json'))['obsolete_since'])"))" | tee -a $OUT.tmp
+    git -C /repo worktree remove --force $W >/dev/null 2>&1
+    continue
+  fi
   if (cd $W && git apply /verif/seeded/$id/patch.diff 2>/dev/null || git apply --3way /verif/seeded/$id/patch.diff >/dev/null 2>&1); then
-    R=$(VCOPY=/tmp/vreg ./tools_seedcheck.sh $W $pid quick 2>&1 | grep -v "^KNOWN" | tail -3)
+    R=$(VCOPY=/tmp/vreg ./tools_seedcheck.sh $W $pid quick 2>&1 | grep "^VIOLATION\|^C[0-9][0-9] quick:" | tail -4)
     if echo "$R" | grep -q "VIOLATION"; then
       if echo "$R" | grep "VIOLATION" | grep -qv "no-failing-input-found"; then S="detected with failing input"; else S="detected (no failing input)"; fi
     else S="NOT DETECTED"; fi
